@@ -144,6 +144,23 @@ def search(ctx):
         except Exception as ex:
             import traceback
             ctx.violation("C04:raises:%s:%s" % (name, type(ex).__name__), "%s raised %r" % (name, ex), dict(kind="raises", tb=traceback.format_exc()[-600:], **info))
+    # the default theory ('auto') for a sphere cluster must not depend on the unit of length either
+    for i in range(ctx.n(6, 40)):
+        try:
+            r0 = float(rng.uniform(0.2, 0.5))
+            sep = float(rng.uniform(2.2, 28.0)) * r0
+            cl = Spheres([Sphere(n=1.59, r=r0, center=(0.3, 0.2, 6.0)), Sphere(n=1.5, r=0.8 * r0, center=(0.3 + sep * 0.6, 0.2 + sep * 0.8, 6.0))], warn=False)
+            l = float(10.0 ** rng.integers(-6, 7))
+            det, dets = detector_grid((3, 3), 0.2), detector_grid((3, 3), 0.2 * l)
+            ctx.tried("auto-theory-units", (round(sep / r0, 3), l))
+            h = calc_holo(det, cl, medium_index=T.NMED, illum_wavelen=T.WL, illum_polarization=(1, 0)).values
+            hs = calc_holo(dets, scale_scatterer(cl, l), medium_index=T.NMED, illum_wavelen=T.WL * l, illum_polarization=(1, 0)).values
+            if not (_rel(hs, h) <= 1e-6):
+                ctx.violation("C04:auto-theory-units", "two spheres %.2f radii apart with the default theory: multiplying every length by %g changed the hologram (rel %.3g)" % (sep / r0, l, _rel(hs, h)),
+                              dict(kind="auto-units", scale=l, sep_over_r=sep / r0, scatterer=repr(cl)))
+        except Exception as ex:
+            import traceback
+            ctx.violation("C04:raises:auto:%s" % type(ex).__name__, "default-theory scaling raised %r" % (ex,), dict(kind="raises", tb=traceback.format_exc()[-600:]))
     # cross sections over the whole range of length units (metres ... nanometres), absorbing / layered / cluster
     m = ctx.n(20, 200)
     for i in range(m):
